@@ -188,6 +188,12 @@ class Runner(object):
             if j >= len(self.pool) or self.pool[j] is None:
                 raise LookupError("noobj")
             return (self.pool[j],)
+        if k == "mixed":                                  # several iterables, one of them a Stream / thub
+            j = src["j"]
+            if j >= len(self.pool) or self.pool[j] is None:
+                raise LookupError("noobj")
+            return (FL.iterable_of(self.literal(src["pre"]), fl, self.Stream), self.pool[j],
+                    FL.iterable_of(self.literal(src["post"]), fl, self.Stream))
         if k == "ref":
             j = src["j"]
             if j >= len(self.objs):
@@ -207,7 +213,7 @@ class Runner(object):
 
     def moved(self, src):
         """after a successful use of an `obj` source: a plain Stream is dead from now on"""
-        if src["k"] == "obj":
+        if src["k"] in ("obj", "mixed"):
             o = self.pool[src["j"]]
             if o is not None and not isinstance(o, self.Hub):
                 self.pool[src["j"]] = None
@@ -601,12 +607,20 @@ class Sim:
         if j >= len(self.pool) or self.pool[j] is None:
             return None
         o = self.pool[j]
+        if k == "mixed" and o["kind"] == "h":
+            # finding D16: the real chain takes the use of the hub only when it gets there; from
+            # here on the hub and everything made from it or from the new stream may differ
+            o["flags"].add("lazyhub")
         if o["kind"] != "h":
             self.pool[j] = None
         else:
             if o["uses"] == 0:
                 return None
             o["uses"] -= 1
+        if k == "mixed":
+            if o["per"]:
+                return list(s["pre"]) + list(o["pre"]), list(o["per"]), set(o["flags"])
+            return list(s["pre"]) + list(o["pre"]) + list(s["post"]), [], set(o["flags"])
         return list(o["pre"]), list(o["per"]), set(o["flags"])
 
     def target(self, i):
@@ -654,6 +668,10 @@ class Sim:
         if obj is not None:
             note["kind"] = obj["kind"]
             note["flags"] = sorted(obj["flags"])
+        if src and src["k"] in ("obj", "mixed") and src["j"] < len(self.pool) and self.pool[src["j"]]:
+            a = self.pool[src["j"]]
+            if "lazyhub" in a["flags"] or (src["k"] == "mixed" and a["kind"] == "h"):
+                note["lazyhub"] = True
         if o == "new":
             r = self.src(op["src"])
             if r is not None:
@@ -754,7 +772,10 @@ def _new_src(rng, sim, allow_obj=True):
         return {"k": "const", "v": _vals(rng, 1, sim)[0]}
     if r < 0.88 or not allow_obj or not sim.live("shr"):
         return {"k": "chain", "xss": [_vals(rng, rng.randint(0, 3), sim) for _ in range(rng.randint(2, 3))]}
-    return {"k": "obj", "j": rng.choice(sim.live("shr"))}
+    j = rng.choice(sim.live("shr"))
+    if rng.random() < 0.3:
+        return {"k": "mixed", "pre": _vals(rng, rng.randint(0, 2), sim), "j": j, "post": _vals(rng, rng.randint(0, 2), sim)}
+    return {"k": "obj", "j": j}
 
 
 def _count(rng, sim, i, wild, for_round=False):
@@ -835,7 +856,7 @@ def _gen_op(rng, sim, wild):
         return {"op": o, "i": i, "n": _count(rng, sim, i, wild, for_round=True)}
     if o == "append":
         src = _new_src(rng, sim)
-        if src["k"] == "obj" and src["j"] == i and obj["kind"] != "h":     # (a hub appended to itself: two uses)
+        if src["k"] in ("obj", "mixed") and src["j"] == i and obj["kind"] != "h":   # (a hub appended to itself: two uses)
             src = {"k": "list", "xs": _vals(rng, 2, sim)}
         return {"op": o, "i": i, "src": src}
     if o == "map":
@@ -850,7 +871,9 @@ def _gen_op(rng, sim, wild):
     if o == "thub":
         if r < 0.08:
             return {"op": "thub", "src": {"k": "const", "v": _vals(rng, 1, sim)[0]}, "n": rng.randint(0, 3)}
-        src = {"k": "obj", "j": i} if r < 0.7 else _new_src(rng, sim, allow_obj=False)
+        src = {"k": "obj", "j": i} if r < 0.62 else (
+            {"k": "mixed", "pre": _vals(rng, rng.randint(0, 2), sim), "j": i, "post": _vals(rng, rng.randint(0, 2), sim)}
+            if r < 0.7 else _new_src(rng, sim, allow_obj=False))
         if src["k"] == "const":
             src = {"k": "cyc", "xs": [src["v"], _vals(rng, 1, sim)[0]]}
         return {"op": "thub", "src": src, "n": rng.randint(0, 3)}
@@ -887,7 +910,7 @@ def _decorate(rng, sim, op):
             lent = [j for j, L in enumerate(sim.lists) if L["lent"]]
             j = rng.choice(lent) if lent and rng.random() < 0.35 else rng.randrange(len(sim.lists))
             op["src"] = src = {"k": "ref", "j": j, "as": rng.choice(REF_AS)}
-        elif src["k"] in ("list", "chain"):
+        elif src["k"] in ("list", "chain", "mixed"):
             src["as"] = rng.choice(FL.SRC_FLAVOURS)
         if o == "new" and src["k"] in ("list", "ref") and rng.random() < 0.12:
             op["raw"] = True
@@ -1174,9 +1197,9 @@ def _peek_loop(rng, n):
 def generate(rng, tier, scale=1):
     cases = []
     if tier == "quick":
-        nrand, maxlen, depth, nhist, nlong = 4000 * scale, 14, 3, 4000 * scale, 8 * scale
+        nrand, maxlen, depth, nhist, nlong = 3500 * scale, 14, 3, 3500 * scale, 8 * scale
     else:
-        nrand, maxlen, depth, nhist, nlong = 40000 * scale, 40, 4, 40000 * scale, 40 * scale
+        nrand, maxlen, depth, nhist, nlong = 35000 * scale, 40, 4, 35000 * scale, 40 * scale
     if scale == 1:
         cases.extend(_exhaustive(depth))
         cases.extend(_owner_cases())
@@ -1309,6 +1332,8 @@ def classify(case, io, drv):
             return "consume-after-%s:RuntimeError" % flags[0]
         if note.get("past_end") and o in ("take", "peek"):
             return "%s:past-end:RuntimeError" % o
+    if note.get("lazyhub") or "lazyhub" in (note.get("flags") or []):
+        return "thub-among-several-arguments:use-taken-lazily"
     return "%s:%s:impl:%s:expected:%s" % (o, note.get("kind", "-"), _summ(x), _summ(y))
 
 
@@ -1400,7 +1425,7 @@ def _drop(ops, notes, ks):
                     if op["i"] >= p1:
                         op = dict(op, i=op["i"] - (p1 - p0))
                 src = op.get("src")
-                if src and src["k"] == "obj":
+                if src and src["k"] in ("obj", "mixed"):
                     if p0 <= src["j"] < p1:
                         return None
                     if src["j"] >= p1:
@@ -1448,6 +1473,9 @@ def _untag(case):
             s["xss"] = [[it(x) for x in xs] for xs in s["xss"]]
         if "v" in s:
             s["v"] = it(s["v"])
+        for f in ("pre", "post"):
+            if f in s:
+                s[f] = [it(x) for x in s[f]]
         return s
     ops = []
     for op in case["ops"]:
@@ -1539,6 +1567,11 @@ def _shrink(case):
                     c = put(h2 if key is None else dict(op, **{key: h2}))
                     if emit(c):
                         yield c
+        if src and src["k"] == "mixed":
+            for c in (put(dict(op, src={"k": "obj", "j": src["j"]})), put(dict(op, src=dict(src, pre=[]))),
+                      put(dict(op, src=dict(src, post=[])))):
+                if emit(c):
+                    yield c
         if src and src["k"] == "chain":
             c = put(dict(op, src={"k": "list", "xs": [x for xs in src["xss"] for x in xs]}))
             if emit(c):
